@@ -148,6 +148,7 @@ type edit struct {
 
 type stepSpec struct {
 	label    string
+	mkdirs   []string // directories the user creates before the step (relative, leading slash)
 	edits    []edit
 	onEndErr bool
 	cancel   bool
@@ -198,6 +199,7 @@ func describe(sc *scenario, root string, upto int, tag string) map[string]interf
 }
 
 type stepObs struct {
+	wfail       []string // reported output paths (relative) whose directory creation or write failed
 	failedEarly bool
 	onEnd       bool
 	outs        []api.OutputFile
@@ -209,6 +211,28 @@ type stepObs struct {
 }
 
 var devNull *os.File
+var failedWrites map[string]bool // per scenario: output paths whose write failed in an earlier step
+
+func isIOError(text string) bool {
+	return strings.HasPrefix(text, "Failed to write to output file: ") || strings.HasPrefix(text, "Failed to create output directory: ")
+}
+
+// "Failed to write to output file: open <path>: ..." / "Failed to create output directory: mkdir <dir>: ..."
+func ioErrorPath(text string) (string, bool, bool) {
+	for _, pf := range []struct {
+		prefix string
+		dir    bool
+	}{{"Failed to write to output file: open ", false}, {"Failed to create output directory: mkdir ", true}} {
+		if strings.HasPrefix(text, pf.prefix) {
+			rest := text[len(pf.prefix):]
+			if i := strings.Index(rest, ": "); i >= 0 {
+				return rest[:i], pf.dir, true
+			}
+		}
+	}
+	return "", false, false
+}
+
 var cliBinary string // thorough tier: cmd/esbuild built from the tree under test
 var knownSeen = map[string]int{}
 
@@ -253,7 +277,12 @@ func runScenario(sc *scenario, st *Stats, enc *encoder) string {
 	}
 	o.Plugins = append(o.Plugins, api.Plugin{Name: "verif", Setup: func(b api.PluginBuild) {
 		b.OnEnd(func(r *api.BuildResult) (api.OnEndResult, error) {
-			errsAtEnd = len(r.Errors)
+			errsAtEnd = 0
+			for _, e := range r.Errors {
+				if !isIOError(e.Text) {
+					errsAtEnd++ // errors present when the write phase started
+				}
+			}
 			if sc.steps[cur].onEndErr {
 				return api.OnEndResult{Errors: []api.Message{{Text: "on-end failure"}}}, nil
 			}
@@ -288,12 +317,16 @@ func runScenario(sc *scenario, st *Stats, enc *encoder) string {
 	}
 
 	own := map[string]bool{}
+	failedWrites = map[string]bool{}
 	prevFiles := initial.files
 	var obs []stepObs
 	base := time.Date(2001, 1, 1, 0, 0, 0, 0, time.UTC)
 	for i := range sc.steps {
 		cur = i
 		stp := sc.steps[i]
+		for _, d := range stp.mkdirs {
+			os.MkdirAll(root+d, 0o755)
+		}
 		for _, e := range stp.edits {
 			if e.content == nil {
 				os.Remove(root + e.path)
@@ -340,6 +373,24 @@ func runScenario(sc *scenario, st *Stats, enc *encoder) string {
 		ob := stepObs{failedEarly: failedEarly, onEnd: stp.onEndErr && errsAtEnd == 0, outs: res.OutputFiles, before: before, after: after, edits: stp.edits}
 		if sc.viaCLI != nil {
 			ob.onEnd = false
+		}
+		// failures during the write phase, from the messages rebuildImpl logs
+		for _, e := range res.Errors {
+			if p, isDir, ok := ioErrorPath(e.Text); ok {
+				for _, f := range res.OutputFiles {
+					if (!isDir && f.Path == p) || (isDir && under(p, filepath.Dir(f.Path))) {
+						rel := strings.TrimPrefix(f.Path, root)
+						dup := false
+						for _, x := range ob.wfail {
+							dup = dup || x == rel
+						}
+						if !dup {
+							ob.wfail = append(ob.wfail, rel)
+							failedWrites[rel] = true
+						}
+					}
+				}
+			}
 		}
 		// inputs of a successful build, from the metafile
 		if !failedEarly && res.Metafile != "" {
@@ -422,8 +473,8 @@ func runScenario(sc *scenario, st *Stats, enc *encoder) string {
 		for _, f := range ob.outs {
 			outs = append(outs, "("+cpath(strings.TrimPrefix(f.Path, root))+","+enc.content(f.Contents)+","+enc.hash(f.Hash)+")")
 		}
-		steps = append(steps, fmt.Sprintf("([%s],(%s,%s),[%s],%s,%s,%s)", strings.Join(eds, ";"), CBool(ob.failedEarly), CBool(ob.onEnd),
-			strings.Join(outs, ";"), cpaths(ob.ins), cpaths(ob.rewritten), enc.tree(ob.after.files)))
+		steps = append(steps, fmt.Sprintf("([%s],(%s,%s),[%s],%s,%s,%s,%s)", strings.Join(eds, ";"), CBool(ob.failedEarly), CBool(ob.onEnd),
+			strings.Join(outs, ";"), cpaths(ob.ins), cpaths(ob.rewritten), enc.tree(ob.after.files), cpaths(ob.wfail)))
 	}
 	var links []string
 	for _, l := range sc.dirLinks {
@@ -558,7 +609,16 @@ func oracle(sc *scenario, root string, i int, ob *stepObs, st *Stats, write, all
 	}
 
 	if len(goneDirs) > 0 || len(linkDiff) > 0 {
-		st.Fail("directory-or-link-removed", in(), diff, "a build never removes directories or touches symbolic links")
+		neverWritten := len(linkDiff) == 0
+		for _, d := range goneDirs {
+			neverWritten = neverWritten && failedWrites[d]
+		}
+		if neverWritten {
+			// known: the path of a failed write stays in the hash table, so a later rebuild "deletes" it
+			failKnown("rebuild-removed-directory-it-never-wrote", tagged("failed-write-path-stays-in-hash-table"), diff, "a rebuild only deletes files an earlier build of the context wrote")
+		} else {
+			st.Fail("directory-or-link-removed", in(), diff, "a build never removes directories or touches symbolic links")
+		}
 	}
 	reported := map[string][]byte{}
 	for _, f := range ob.outs {
@@ -589,7 +649,21 @@ func oracle(sc *scenario, root string, i int, ob *stepObs, st *Stats, write, all
 	}
 
 	// successful (up to on-end) writing build
+	isWFail := map[string]bool{}
+	for _, p := range ob.wfail {
+		isWFail[p] = true
+	}
+	if len(ob.wfail) > 0 && len(created)+len(modified) > 0 {
+		// known, unavoidable without a rollback: the error arises while the other files are being written
+		failKnown("write-error-build-wrote-files", tagged("write-error-after-partial-write"), diff, "a build that reports errors creates or modifies no file")
+	}
 	for pp, c := range reported {
+		if isWFail[pp] {
+			if _, ok := after.files[pp]; ok && before.files[pp] == nil {
+				st.Fail("failed-write-left-a-file", in(), pp, "nothing at the path of a failed write")
+			}
+			continue
+		}
 		if got, ok := after.files[pp]; !ok || !bytes.Equal(got, c) {
 			st.Fail("reported-output-not-on-disk", in(), map[string]interface{}{"path": pp, "on_disk": string(got), "exists": ok}, string(c))
 		}
@@ -1010,6 +1084,21 @@ func fixedScenarios() []*scenario {
 	}
 	oe.steps = []stepSpec{{label: "build", onEndErr: true}}
 	out = append(out, oe)
+	// J: a failure during the write phase
+	j1 := &scenario{kind: "finding-J", useCtx: true, files: map[string]string{"/src/a.js": "console.log(1)\n", "/src/b.js": "console.log(2)\n"},
+		desc: "ctx entries src/*.js outdir=out write=true; out/a.js is an empty directory of the user's"}
+	j1.opts = func(string) api.BuildOptions {
+		return api.BuildOptions{EntryPoints: []string{"src/*.js"}, Outdir: "out", Write: true}
+	}
+	j1.steps = []stepSpec{{label: "build-with-write-error", mkdirs: []string{"/out/a.js"}}, {label: "remove-entry", edits: []edit{{"/src/a.js", nil}}}}
+	out = append(out, j1)
+	j2 := &scenario{kind: "finding-J", files: map[string]string{"/src/a.js": "console.log(1)\n", "/src/sub/b.js": "console.log(2)\n", "/out/sub": "a regular file where a directory is needed"},
+		desc: "entries src/a.js src/sub/b.js outbase=src outdir=out write=true; out/sub is a regular file"}
+	j2.opts = func(string) api.BuildOptions {
+		return api.BuildOptions{EntryPoints: []string{"src/a.js", "src/sub/b.js"}, Outbase: "src", Outdir: "out", Write: true}
+	}
+	j2.steps = []stepSpec{{label: "build-with-mkdir-error"}}
+	out = append(out, j2)
 	// G: symbolic links
 	g := &scenario{kind: "finding-G", files: map[string]string{"/src/a.js": "export let a = 1 // ORIGINAL\n"},
 		symlinks: [][2]string{{"/out", "src"}}, dirLinks: [][2]string{{"/out", "/src"}}, desc: "entry src/a.js outdir=out where out -> src (symlink)"}
